@@ -462,12 +462,13 @@ func (s *state) walkIncludeNode(node *parse.IncludeNode) (tpl string, ctx map[st
 	if !node.Only {
 		ctx = s.scope.All()
 	}
-	if with != nil {
-		if with, ok := with.(map[string]Value); ok {
-			for k, v := range with {
-				ctx[k] = v
-			}
-		}
+	if with != nil && IsMap(with) {
+		// Any map is accepted (map[string]string, a named map type, ...), not
+		// only the type hash literals have.
+		_, err = Iterate(with, func(k, v Value, l Loop) (bool, error) {
+			ctx[CoerceString(k)] = v
+			return false, nil
+		})
 	}
 	return tpl, ctx, err
 }
